@@ -302,3 +302,16 @@ EXTRA4 = {
 }
 for _k, _v in EXTRA4.items():
     EXTRA[_k] = EXTRA.get(_k, "") + _v
+
+# round f
+EXTRA5 = {
+    "C04": " Round f: the anti-unifier tables of C17 are evaluated under C04 too (a Unique substitution must be an instance of the guidance).",
+    "C07": " Round f: relate_var_ty binds only the generalized copy of a type (nested projections become AliasEq goals).",
+    "C14": " Round f: relate_var_ty binds only the generalized copy of a type and relates it with the original on every path.",
+    "C20": " Round f: a visibility / locality rule for tuples ranges over all elements (no slice, no element-dropping adaptor).",
+    "C25": " Round f: the six default free-variable callbacks all shift the variable in by outer_binder (siblings).",
+    "C29": " Round f: zip_substs relates every pair with its own position's variance (no element-dropping adaptor before enumerate).",
+    "C05": " Round e: element-dropping adaptors in constituent_types are an audited inventory.",
+}
+for _k, _v in EXTRA5.items():
+    EXTRA[_k] = EXTRA.get(_k, "") + _v
